@@ -451,9 +451,15 @@ def run(ctx: Ctx) -> None:
         wpos = [i for i, (v, c) in enumerate(zip(base["verbs"], base["codes"])) if v == " W"]
         after = [wpos[-1] + 1] if wpos and wpos[-1] + 1 < base["calls"] else []          # the version query that follows the last fragment
         scns.append({"seed": seed, "plan": {}, "steps": wsteps, "dispatch": True, "n_aw": base["calls"], "pos": None, "kind": "write"})
+        # ... and the same with NOTHING changing on the controller afterwards (its change counter stands still: whatever the failed write left in the
+        # zone's cache is not refreshed by a counter bump): the probes must still return the controller's schedules
+        wquiet = [("fetch", 0, 30), ("set", 0, 30)] + PROBES
         for pos in wpos + after:
             for kind in ("raise", "hang", "lost-on-air"):
                 scns.append({"seed": seed, "plan": {str(pos): kind}, "steps": wsteps, "dispatch": True, "n_aw": base["calls"], "pos": pos, "kind": "write+" + kind})
+                scns.append({"seed": seed, "plan": {str(pos): kind}, "steps": wquiet, "dispatch": True, "n_aw": base["calls"], "pos": pos, "kind": "write+" + kind + "+quiet"})
+                scns.append({"seed": seed, "plan": {str(pos): kind}, "steps": [("fetch", 0, 30), ("set", 0, 30), ("fetch", 0, 400), ("fetch", 1, 400)], "dispatch": True,
+                             "n_aw": base["calls"], "pos": pos, "kind": "write+" + kind + "+quiet-unforced"})
         scns.append({"seed": seed, "plan": {}, "steps": [("fetch", 0, 30), ("bump", 0)] + PROBES, "dispatch": True, "n_aw": n_aw, "pos": None, "kind": "change-between"})
     coq_cases, impl_rows = [], []
     for s in scns:
